@@ -13,7 +13,9 @@ let variant_of = function
     (* "def:RADS" = the listed defects present: R restore unvalidated, A reverse Add appends, D duplicate
        addresses, S synced-activation rollback leaves reverse entries *)
     let has c = String.length s > 4 && String.contains (String.sub s 4 (String.length s - 4)) c in
-    { v_validate = not (has 'R'); v_replace = not (has 'A'); v_dedup = not (has 'D'); v_rollback = not (has 'S') }
+    (* V: the component keys the pool by (0, inside address); X: Config.Validate accepts pools sharing addresses *)
+    { v_validate = not (has 'R'); v_replace = not (has 'A'); v_dedup = not (has 'D'); v_rollback = not (has 'S');
+      v_vrfkey = not (has 'V'); v_xpool = not (has 'X'); v_late = not (has 'L') }
 
 let hex_of_n (x : n) : string =
   match x with
@@ -110,6 +112,53 @@ let show_out_dp = function
   | RInadmissible b -> "INADMISSIBLE " ^ show_block b
   | _ -> "nodp"
 
+
+(* two pools on one PoolManager *)
+let run_mp (v : variant) (head : string) (ops : string list) (impl : string option) : string =
+  match split_on head " || " with
+  | [h1; h2] ->
+    let r1 = parse_cfg (List.tl (tokens h1)) and r2 = parse_cfg (tokens h2) in
+    let impl_outs = match impl with Some l -> Array.of_list (split_on l " ; ") | None -> [||] in
+    let obs i = if i < Array.length impl_outs then obs_of_impl impl_outs.(i) else None in
+    let outs = ref [] in
+    let emit s = outs := s :: !outs in
+    let st = ref None and stop = ref false in
+    let pools () = match !st with
+      | Some ps -> ps
+      | None -> (match configure_all v [r1; r2] with Some ps -> st := Some ps; ps | None -> failwith "configure") in
+    List.iteri (fun i tok ->
+      if not !stop then
+      match split_on tok ":" with
+      | ["v"] ->
+        (match mconfigure v [r1; r2] with
+         | None -> emit "invalid"; stop := true
+         | Some ps -> st := Some ps; emit "valid")
+      | ["d"] ->
+        let ps = pools () in
+        let (c1, p1) = List.nth ps 0 and (c2, p2) = List.nth ps 1 in
+        emit (Printf.sprintf "P1{%s} P2{%s} flags=%s" (dump c1 p1) (dump c2 p2)
+                (if mon_xdisjoint ps then "none" else "XOVERLAP"))
+      | opn :: pi :: rest ->
+        let ps = pools () in
+        let idx = int_of_string pi - 1 in
+        let (c, p) = List.nth ps idx in
+        let o = (match opn, rest with
+          | "a", [k] -> Some (OAlloc (nn k, obs i))
+          | "g", [k] -> Some (OGoa (nn k, obs i))
+          | "r", [k] -> Some (ORelease (nn k))
+          | "R", [k; ip; a; b] -> Some (ORestore (nn k, blk ip a b))
+          | "I", [k; ip; a; b] -> Some (ORestoreIfAbsent (nn k, blk ip a b))
+          | _ -> None) in
+        (match o with
+         | None -> emit "badop"
+         | Some o ->
+           let (_, out) = step v c p o in
+           st := Some (mstep v ps (nat_of_int idx, o));
+           emit (show_out_pool out))
+      | _ -> emit "badop") ops;
+    if !outs = [] then "empty" else String.concat " ; " (List.rev !outs)
+  | _ -> "badline"
+
 let run_case (v : variant) (line : string) (impl : string option) : string =
   match split_on line " | " with
   | [] -> "badline"
@@ -117,6 +166,7 @@ let run_case (v : variant) (line : string) (impl : string option) : string =
     let ops = match rest with [o] -> tokens o | _ -> [] in
     (match tokens head with
      | [] -> "badline"
+     | "mp" :: _ -> run_mp v head ops impl
      | kind :: cfgtoks ->
        let raw = parse_cfg cfgtoks in
        let c = effective raw in
@@ -155,6 +205,9 @@ let run_case (v : variant) (line : string) (impl : string option) : string =
                 let bulk = (match rest with [x] -> nn x | _ -> N0) in
                 let (s', o) = cstep v c !s (CRestorePresent (nn sid, nn mk, blk ip a b, bulk, obs i)) in s := s'; emit (show_out_dp o)
               | ["C"] -> let (s', _) = cstep v c !s CComplete in s := s'; emit "ok"
+              | ["L"; sid; k] ->
+                let (s', o) = cstep v c !s (CActivateLate (nn sid, nn k, obs i)) in s := s'; emit (show_out_dp o)
+              | ["K"; sid; ok] -> let (s', _) = cstep v c !s (CAddComplete (nn sid, ok = "1")) in s := s'; emit "ok"
               | ["D"; _; mk; ip; a; b] ->
                 let (s', _) = cstep v c !s (CRestoreDegraded (nn mk, blk ip a b)) in s := s'; emit "nodp"
               | ["d"] ->
